@@ -161,6 +161,9 @@ pub fn run(ctx: &Ctx) -> Report {
         );
         run_generated(&mut sec, ctx.seed ^ 0x51, ctx.cases(0, 200_000), ctx.workers, || strategy(gen::ConfigMenu::pin_level(), 6), check, sig);
         rep.sections.push(sec);
+        let mut sec = Section::new(&format!("long-programs[{}]", ctx.variant), "as programs, up to 40 drawing calls per display (state accumulated over many calls)");
+        run_generated(&mut sec, ctx.seed ^ 0x52, ctx.cases(0, 300_000), ctx.workers, || strategy(gen::ConfigMenu::all_transports(), 40), check, sig);
+        rep.sections.push(sec);
     }
     rep
 }
